@@ -412,8 +412,20 @@ class _RandomProxy:
         return stubs_rng.global_random(name)
 
 
+def _arange_exact(*a, dtype=None, **kw):
+    """np.arange without an integer dtype request: exact constants, so that
+    float arithmetic on the result (2./(1-k**2), k*pi/(n-1)) stays exact."""
+    dtype = _fix_dtype(dtype)
+    if dtype is not None or any(isinstance(x, float) for x in a):
+        return _np.arange(*a, dtype=dtype, **kw)
+    return to_sym_array(_np.arange(*a, **kw))
+
+
+EXACT_ARANGE_MODULES = ('teneva.func', 'teneva.func_full')
+
+
 class NPProxy:
-    def __init__(self):
+    def __init__(self, modname=''):
         from . import stubs
         self._over = {
             'zeros': _zeros, 'ones': _ones, 'empty': _empty, 'full': _full,
@@ -431,6 +443,8 @@ class NPProxy:
             'cos': stubs.np_cos, 'sin': stubs.np_sin, 'arccos': stubs.np_arccos,
             'rint': stubs.np_rint,
         }
+        if modname in EXACT_ARANGE_MODULES:
+            self._over['arange'] = _arange_exact
         self.linalg = _LinalgProxy(_np.linalg, stubs.NP_LINALG)
         self.random = _RandomProxy()
         self.fft = _LinalgProxy(_np.fft, stubs.NP_FFT)
@@ -480,10 +494,9 @@ def install():
     if _INSTALLED:
         return
     from . import stubs
-    npx = NPProxy()
     spx = SPProxy()
     repl = {
-        'np': npx, 'sp': spx,
+        'np': None, 'sp': spx,
         'lu': stubs.sp_lu, 'solve_triangular': stubs.sp_solve_triangular,
         'contract': _contract, 'dct': stubs.sp_dct, 'dst': stubs.sp_dst,
         'tpc': _Clock(),
@@ -497,7 +510,7 @@ def install():
         for k, v in repl.items():
             if k in d:
                 _SAVED[(m.__name__, k)] = d[k]
-                d[k] = v
+                d[k] = NPProxy(m.__name__) if k == 'np' else v
         for k, v in always.items():
             _SAVED[(m.__name__, k)] = d.get(k, _MISSING)
             d[k] = v
